@@ -34,9 +34,12 @@ def _dt_like(e: ast.AST) -> bool:
     return False
 
 
+_DERIVED_TIME: Set[str] = set()      # locals of the function under analysis that were initialised from a time (point = starttime)
+
+
 def _time_like(e: ast.AST) -> bool:
     if isinstance(e, ast.Name):
-        return e.id in TIME_NAMES
+        return e.id in TIME_NAMES or e.id in _DERIVED_TIME
     if isinstance(e, ast.Attribute):
         return e.attr in TIME_ATTRS
     if isinstance(e, ast.Subscript):
@@ -123,16 +126,24 @@ def check_normalisation(idx: Index, res: Result) -> None:
     the memo is probed, evaluated and filled under the normalised key.  Shared by C05 and C01."""
     res.floor("normalize() call sites", normalize_sites_rule(idx, res), 3)
     # ---- timerange: advance normalised, yields the loop variable ---------------------------------------------------
-    tr = idx.func(FP, "timerange")
-    ps = params(tr.node)
-    loops = [n for n in walk_no_nested(tr.node) if isinstance(n, ast.While)]
-    if len(loops) != 1:
-        raise AnalysisError("timerange: loop not found")
-    lp = loops[0]
-    adv = [n for n in lp.body if isinstance(n, ast.Assign) and isinstance(n.value, ast.Call) and call_name(n.value) == "normalize"]
-    if len(adv) != 1 or not isinstance(adv[0].targets[0], ast.Name):
-        raise AnalysisError("timerange: normalised advance not found")
-    var = adv[0].targets[0].id
+    tr0 = idx.func(FP, "timerange")
+    from ..inline import load_vocab
+    from ..util import deref
+    _vocab = load_vocab()
+    # the loop that produces the grid points: in timerange itself or in a helper of the module the rules do not know by name
+    cands = [tr0] + [f for q, f in idx.module(FP).functions.items() if f.node.name not in _vocab]
+    found_loops = []
+    for cf in cands:
+        for lp_ in [n for n in walk_no_nested(cf.node) if isinstance(n, (ast.While, ast.For))]:
+            adv_ = [n for n in lp_.body if isinstance(n, ast.Assign) and isinstance(n.value, ast.Call) and call_name(n.value) == "normalize"
+                    and isinstance(n.targets[0], ast.Name)]
+            if len(adv_) == 1:
+                found_loops.append((cf, lp_, adv_[0]))
+    if len(found_loops) != 1:
+        raise AnalysisError("timerange: loop with a normalised advance not found")
+    tr, lp, adv0 = found_loops[0]
+    adv = [adv0]
+    var = adv0.targets[0].id
     others = [n for n in ast.walk(lp) if isinstance(n, (ast.Assign, ast.AugAssign)) and n is not adv[0]
               and src(n.targets[0] if isinstance(n, ast.Assign) else n.target) == var]
     res.check("NORM", "timerange advances only through normalize()", not others, tr.loc(lp), tr.qual, norm_stmt(adv[0]),
@@ -143,16 +154,25 @@ def check_normalisation(idx: Index, res: Result) -> None:
         out = dict(zip(names, call.args))
         out.update({k.arg: k.value for k in call.keywords if k.arg})
         return out
-    from ..util import deref
     ta = {k_: deref(tr.node, v_) for k_, v_ in norm_args(ncall).items()}       # a parameter computed into a local first
-    ok = nf(ta["x"]) == nf("%s + %s" % (var, ps[2])) and src(ta.get("base")) == ps[2] and src(ta.get("offset")) == ps[0] \
-        and nf(ta.get("precision")) in (nf("max(scale(%s), scale(%s))" % (ps[0], ps[2])), nf("max(scale(%s), scale(%s))" % (ps[2], ps[0])))
+    # roles, not parameter positions: the loop variable starts at <offset> and advances by <base>
+    inits = [n.value for n in walk_no_nested(tr.node) if isinstance(n, ast.Assign) and isinstance(n.targets[0], ast.Name) and n.targets[0].id == var and n is not adv0]
+    start_txt = src(inits[0]) if len(inits) == 1 else None
+    xs = ta.get("x")
+    step_txt = None
+    if isinstance(xs, ast.BinOp) and isinstance(xs.op, ast.Add):
+        sides = [xs.left, xs.right]
+        if any(isinstance(x_, ast.Name) and x_.id == var for x_ in sides):
+            step_txt = src([x_ for x_ in sides if not (isinstance(x_, ast.Name) and x_.id == var)][0])
+    ok = start_txt is not None and step_txt is not None and src(ta.get("base")) == step_txt and src(ta.get("offset")) == start_txt \
+        and nf(ta.get("precision")) in (nf("max(scale(%s), scale(%s))" % (start_txt, step_txt)), nf("max(scale(%s), scale(%s))" % (step_txt, start_txt)))
     res.check("NORM", "timerange normalises i+dt to (base=dt, offset=start, precision=max(scale(start), scale(dt)))", ok, tr.loc(ncall),
               tr.qual, src(ncall), "timerange normalises with %s" % src(ncall), key="NORM/timerange/parameters")
-    app = [c for c in iter_calls(lp) if call_name(c) == "append"]
-    ok = len(app) == 1 and src(app[0].args[0]) == var
+    app = [c.args[0] for c in iter_calls(lp) if call_name(c) == "append" and c.args] + \
+          [y.value for y in ast.walk(lp) if isinstance(y, ast.Yield) and y.value is not None]
+    ok = len(app) == 1 and src(app[0]) == var
     res.check("NORM", "timerange yields the normalised loop variable", ok, tr.loc(lp), tr.qual, src(app[0]) if app else "",
-              "timerange appends %s, not its normalised loop variable" % (src(app[0].args[0]) if app else "?"), key="NORM/timerange/yield")
+              "timerange appends %s, not its normalised loop variable" % (src(app[0]) if app else "?"), key="NORM/timerange/yield")
     # normalize itself: round(base*round((x-offset)/base)+offset, precision)
     nm = idx.func(FP, "normalize")
     nps = params(nm.node)
@@ -198,11 +218,15 @@ def check_normalisation(idx: Index, res: Result) -> None:
             uses += 1
             res.check("KEY", "memo probe keyed by the normalised time", src(n.left) == K, memo.loc(n), memo.qual, src(n),
                       "the memo is probed with %s" % src(n.left), key="KEY/memoize/probe")
+        if isinstance(n, ast.Call) and call_name(n) == "get" and n.args and is_row(rows, n.func.value, "self.memo"):
+            uses += 1
+            res.check("KEY", "memo probe keyed by the normalised time", src(n.args[0]) == K, memo.loc(n), memo.qual, src(n),
+                      "the memo is probed with %s" % src(n.args[0]), key="KEY/memoize/probe")
         if isinstance(n, ast.Call) and isinstance(n.func, ast.Subscript) and "equations" in src(n.func.value):
             uses += 1
             res.check("KEY", "equation evaluated at the normalised time", [src(a) for a in n.args] == [K], memo.loc(n), memo.qual, src(n),
                       "the equation is evaluated at %s" % [src(a) for a in n.args], key="KEY/memoize/evaluate")
-    res.floor("uses of the memo key in Model.memoize", uses, 4)
+    res.floor("uses of the memo key in Model.memoize", uses, 3)
 
 
 
@@ -228,6 +252,11 @@ def check_c05(idx: Index, tier: str, res: Result) -> None:
             if "." in fi.qual.replace((fi.cls or "") + ".", "", 1) and not fi.qual.endswith(".setter"):
                 pass
             par = _parents(fi.node)
+            _DERIVED_TIME.clear()
+            for _ in range(2):
+                for a_ in walk_no_nested(fi.node):
+                    if isinstance(a_, ast.Assign) and len(a_.targets) == 1 and isinstance(a_.targets[0], ast.Name) and _time_like(a_.value):
+                        _DERIVED_TIME.add(a_.targets[0].id)
             for n in walk_no_nested(fi.node):
                 if isinstance(n, ast.BinOp) and isinstance(n.op, (ast.Add, ast.Sub)) and (
                         (_time_like(n.left) and _dt_like(n.right)) or (_dt_like(n.left) and _time_like(n.right))):
